@@ -83,7 +83,8 @@ func coqAnswers(ex []fakehaproxy.Exchange) (string, string, string) {
 		} else {
 			ans = append(ans, "AText "+hx.Str(oneLine(e.Answer)))
 		}
-		exe = append(exe, hx.Bool(!e.Lost && e.Fault != fakehaproxy.FaultRefuse))
+		// executed = by the listening process: a command a former generation executed does not count
+		exe = append(exe, hx.Bool(!e.Lost && !e.Stale && e.Fault != fakehaproxy.FaultRefuse))
 		cmds = append(cmds, hx.Str(e.Cmd))
 	}
 	return hx.List(ans), hx.List(exe), hx.List(cmds)
